@@ -21,7 +21,7 @@ func init() {
 		Doc: "the wrapper of bufio.Reader.ReadRune reads one rune per call (no consuming call of the reader is reachable from another within it), every return of the wrapper off the error path yields the rune read by that call (or one kept in the scanner's own fields), and no other hand-written function of the parser package calls a consuming method of bufio.Reader: a rune taken and not handed on never reaches the tokeniser",
 		Run: runReadDelivers})
 	register(&Rule{Name: "R-LOOKAHEAD-KEPT", Min: 6,
-		Doc: "for every call of the rune reader in a hand-written function of the parser package, on every path from the call: the rune is put back (un-read wrapper), or matched exactly (an equality test with a constant or with the end-of-input sentinel holds), or handed on (stored, converted to text, passed to a function that is not a pure character classifier, returned), or - having been classified - left to a skipping function, before the path returns or, in a token-producing function, reads again without a classification of the rune being known true (skipping a character class in place); a return of a token that is no terminal of the grammar (the error token) is exempt",
+		Doc: "for every call of the rune reader in a hand-written function of the parser package, on every path from the call: the rune is put back (un-read wrapper), or matched exactly (an equality test with a constant or with the end-of-input sentinel holds), or handed on (stored, converted to text, passed to a function that is not a pure character classifier, returned), or - having been classified - left to a skipping function, before the path returns or, in a token-producing function, reads again without a classification of the rune being known true (skipping a character class in place); a return of a token that is no terminal of the grammar (the error token) is exempt. A skipping function that reads on without such a classification (it drops whatever comes, as inside a comment) must be called only where an exact match of an opening character holds",
 		Run: runLookaheadKept})
 }
 
@@ -244,6 +244,7 @@ func runLookaheadKept(p *Program, r *RuleResult) {
 	}
 	sort.Slice(fns, func(i, j int) bool { return fnName(fns[i]) < fnName(fns[j]) })
 	nReads := 0
+	unconditionalDrop := map[*ssa.Function]string{}
 	for _, fn := range fns {
 		view := p.View(fn)
 		tokenFn := producesToken(fn)
@@ -378,12 +379,31 @@ func runLookaheadKept(p *Program, r *RuleResult) {
 				pos, why string
 			}
 			var bads []bad
+			isClassifiedAt := func(b *ssa.BasicBlock) bool {
+				for _, cl := range classified {
+					if view.holdsAt(b, cl, factTrue) {
+						return true
+					}
+				}
+				return false
+			}
 			seen := map[*ssa.BasicBlock]bool{}
 			var scan func(b *ssa.BasicBlock, start int)
 			scan = func(b *ssa.BasicBlock, start int) {
 				ins := view.Instrs(b)
 				for k := start; k < len(ins); k++ {
 					if disposes(ins[k]) {
+						return
+					}
+					if c, ok := ins[k].(*ssa.Call); ok && c.Common().StaticCallee() == ri.Read && !tokenFn {
+						// a skipping function reads on: the rune is dropped. Either it was
+						// classified (a run of one character class is skipped), or the function
+						// drops whatever comes: then it must be a delimited skipper (below)
+						if !isClassifiedAt(b) {
+							if _, seen := unconditionalDrop[fn]; !seen {
+								unconditionalDrop[fn] = p.instrPos(c)
+							}
+						}
 						return
 					}
 					if c, ok := ins[k].(*ssa.Call); ok && c.Common().StaticCallee() == ri.Read && tokenFn {
@@ -435,6 +455,52 @@ func runLookaheadKept(p *Program, r *RuleResult) {
 				r.add(fnName(fn), construct, Violated, p.instrPos(rd),
 					fmt.Sprintf("the rune read here is dropped on a path: %s; the character is consumed from the input and belongs to no token", bads[0].why))
 			}
+		}
+	}
+	// skipping functions that drop runes without classifying them (comment bodies) may only
+	// be entered once an opener has been matched exactly
+	for _, fn := range fns {
+		at, ok := unconditionalDrop[fn]
+		if !ok {
+			continue
+		}
+		bad := ""
+		nCalls := 0
+		for _, caller := range p.SrcFuncs {
+			if caller.Blocks == nil {
+				continue
+			}
+			cv := p.View(caller)
+			for _, c := range p.callsTo(caller, fn) {
+				if !cv.Live(c) {
+					continue
+				}
+				nCalls++
+				matched := false
+				for f := range cv.FactsAt(c.Block()) {
+					bo, ok := f.v.(*ssa.BinOp)
+					if !ok || !((bo.Op == token.EQL && f.k == factTrue) || (bo.Op == token.NEQ && f.k == factFalse)) {
+						continue
+					}
+					x, k := bo.X, bo.Y
+					if _, isC := x.(*ssa.Const); isC {
+						x, k = k, x
+					}
+					kc, isC := k.(*ssa.Const)
+					if !isC || kc.Value == nil || !isRuneKind(x.Type()) || ri.isSentinel(k) {
+						continue
+					}
+					matched = true
+				}
+				if !matched && bad == "" {
+					bad = fmt.Sprintf("%s drops runes it has not classified (it reads on at %s without a character-class test of the rune being known true), and its call at %s is not under an exact match of an opening character: whatever follows is consumed from the input and belongs to no token", fnName(fn), at, p.instrPos(c))
+				}
+			}
+		}
+		if bad != "" {
+			r.add(fnName(fn), "skips-only-what-it-classified-or-what-an-opener-delimits", Violated, at, bad)
+		} else {
+			r.add(fnName(fn), "skips-only-what-it-classified-or-what-an-opener-delimits", Holds, at, fmt.Sprintf("drops unclassified runes, and each of its %d call sites lies under an exact match of an opening character", nCalls))
 		}
 	}
 	r.count("reads judged", nReads)
